@@ -5,8 +5,8 @@ from contracts import repartition as R
 PROPERTY = "C44"
 META = {
     "category": "proof",
-    "technique": "contract-based deductive verification of the boundary arithmetic (float rounding model, prefix sums), z3; bounded native execution of the extracted _layer methods on a partition model",
-    "text": "Kernel-level proof for all partition counts < 2**31: RepartitionToFewer boundaries have n_new+1 entries, start at 0, end at n_old and never decrease (so the range(start,end) lists tile the input partitions in order: lemma_tiling); RepartitionToMore._nsplits has one entry >= 1 per input partition and sums to the requested count. _layer graph construction and RepartitionDivisions are executed natively on a stated partition model (bounded).",
+    "technique": "contract-based deductive verification of the boundary arithmetic (float rounding model, prefix sums) and of the task-graph builders RepartitionToFewer._layer / RepartitionToMore._layer, z3; bounded native execution of the extracted _layer methods on a partition model",
+    "text": "Kernel-level proof for all partition counts < 2**31: RepartitionToFewer boundaries have n_new+1 entries, start at 0, end at n_old and never decrease (so the range(start,end) lists tile the input partitions in order: lemma_tiling); RepartitionToMore._nsplits has one entry >= 1 per input partition and sums to the requested count. RepartitionToMore._layer: output partition numbers are exactly 0..sum(nsplits)-1 and piece jj of input partition i is output number psum(nsplits, i) + jj (an alias of the input when nsplits[i] == 1, else getitem(split_evenly(input i, nsplits[i]), jj)); RepartitionToFewer._layer: one output per pair of boundaries, concatenating exactly the inputs boundaries[i] .. boundaries[i+1]-1 in order. Together with the kernels: every input partition reaches exactly one place of the output, in order. RepartitionDivisions and RepartitionSize are executed natively on a stated partition model (bounded).",
     "note": "Trusted: VC generator, z3, float model (2**-53 relative error per operation, integers <= 2**53 exact, no overflow). dask.dataframe cannot be imported here (pyarrow missing): verified text = AST of the source; E2 exec()s the extracted functions with stub globals (decorators and module import side effects dropped). pandas-level row movement (boundary_slice, concat, split_evenly) is ASSUMED per the stated partition model. RepartitionSize / from_pandas not covered.",
     "design_ref": "DESIGN.md §5.11",
 }
@@ -28,8 +28,10 @@ def replay_native(native):
     return repart_native.replay(native)
 
 
-NATIVE_COVERS = {"RepartitionToFewer._compute_partition_boundaries": ["_compute_partition_boundaries"], "RepartitionToMore._nsplits": ["_nsplits"], "_clean_new_division_boundaries": ["_compute_partition_boundaries"]}
+NATIVE_COVERS = {"RepartitionToMore._layer": ["RepartitionToMore._layer", "_nsplits"], "RepartitionToFewer._layer": ["_compute_partition_boundaries"], "RepartitionToFewer._compute_partition_boundaries": ["_compute_partition_boundaries"], "RepartitionToMore._nsplits": ["_nsplits"], "_clean_new_division_boundaries": ["_compute_partition_boundaries"]}
 
 
 # thorough tier: deliberate edits that must turn an obligation red (applied to a scratch copy, never to /repo)
-MUTATIONS = [('contracts.repartition', 'RepartitionToMore._nsplits', 'dask/dataframe/dask_expr/_repartition.py', '        nsplits = [div] * df.npartitions', '        nsplits = [div] * (df.npartitions - 1) + [0]'), ('contracts.repartition', '_clean_new_division_boundaries', 'dask/dataframe/dask_expr/_repartition.py', '    if new_partitions_boundaries[-1] < frame_npartitions:', '    if new_partitions_boundaries[-1] > frame_npartitions:')]
+MUTATIONS = [('contracts.repartition', 'RepartitionToFewer._layer', 'dask/dataframe/dask_expr/_repartition.py', '                [(self.frame._name, j) for j in range(start, end)],', '                [(self.frame._name, j) for j in range(start, end - 1)],'),
+             ('contracts.repartition', 'RepartitionToMore._layer', 'dask/dataframe/dask_expr/_repartition.py', '        for i, k in enumerate(nsplits):\n            if k == 1:\n                dsk[new_name, j] = (df._name, i)\n                j += 1', '        for i, k in enumerate(nsplits):\n            if k == 1:\n                dsk[new_name, j] = (df._name, i)'),
+             ('contracts.repartition', 'RepartitionToMore._nsplits', 'dask/dataframe/dask_expr/_repartition.py', '        nsplits = [div] * df.npartitions', '        nsplits = [div] * (df.npartitions - 1) + [0]'), ('contracts.repartition', '_clean_new_division_boundaries', 'dask/dataframe/dask_expr/_repartition.py', '    if new_partitions_boundaries[-1] < frame_npartitions:', '    if new_partitions_boundaries[-1] > frame_npartitions:')]
